@@ -314,6 +314,16 @@ func (m *resourceManager) handleReadResource(ctx context.Context, req *JSONRPCRe
 	if err != nil {
 		return newJSONRPCErrorResponse(req.ID, ErrCodeInternal, err.Error(), nil), nil
 	}
+	for _, c := range contents {
+		if c == nil {
+			return newJSONRPCErrorResponse(req.ID, ErrCodeInternal,
+				fmt.Sprintf("resource handler returned no contents (resource: %s)", uri), nil), nil
+		}
+	}
+	if contents == nil {
+		// "contents" is a required array of the result: never encode it as null.
+		contents = []ResourceContents{}
+	}
 
 	// Create result
 	result := ReadResourceResult{
